@@ -2,7 +2,7 @@
    Only the property theorems (closed by [exact]) and non-vacuity examples.
    The engines' own cursors (rocksdb, pebble, radix / btree / skiplist) are tied to the ideal cursor of
    Eng/Cursor.v by the correspondence check only; everything above the cursor is proved here. *)
-From ZV Require Import Common.Bytes Eng.Consts Eng.Model Eng.Proofs.
+From ZV Require Import Common.Bytes Eng.Consts Eng.Model Eng.IndexKey Eng.Proofs.
 Open Scope Z_scope.
 
 (* ===== (1) the shared range/limit iterator (engine/iterator.go) ===== *)
@@ -227,6 +227,21 @@ Theorem C20_delete_range_is_remove_of_range : forall lo hi m,
 Proof. exact delete_range_is_remove_of_range. Qed.
 Print Assumptions C20_delete_range_is_remove_of_range.
 
+(* ===== (4b) the mem engine's radix index keys (engine/radixdb toIndexKey, fix c38de4c) ===== *)
+(* the index keys are ordered like the raw keys, none is a prefix of another, and decoding inverts encoding:
+   what the radix iterators need for every key, including keys that contain 0x00 *)
+Theorem C20_index_key_order : forall a b, bytes_cmp (to_index_key a) (to_index_key b) = bytes_cmp a b.
+Proof. exact index_key_order. Qed.
+Print Assumptions C20_index_key_order.
+
+Theorem C20_index_key_prefix_free : forall a b, is_prefix (to_index_key a) (to_index_key b) = true -> a = b.
+Proof. exact index_key_no_proper_prefix. Qed.
+Print Assumptions C20_index_key_prefix_free.
+
+Theorem C20_index_key_roundtrip : forall k, from_index_key (to_index_key k) = k.
+Proof. exact index_key_roundtrip. Qed.
+Print Assumptions C20_index_key_roundtrip.
+
 (* ===== (5) whole scripts: batches, commits, clears and reads, from the empty engine ===== *)
 Theorem C20_reachable_sorted : forall bounded ss, ksorted (committed (run_db bounded db_empty ss)).
 Proof. exact reachable_from_empty_sorted. Qed.
@@ -260,6 +275,13 @@ Example C20_ex_e1 :
   db_range_limit true true e1_store e1_opts = Some [] /\
   db_range_limit true false e1_store e1_opts = Some [([98%N], [1%N])].
 Proof. exact e1_after_fix. Qed.
+
+(* the old encoding (key ++ [0]) made "k" a prefix of "k\000..."; the new one does not *)
+Example C20_ex_index_key :
+  is_prefix ([107%N] ++ [0%N]) ([107%N; 0%N] ++ [0%N]) = true /\
+  is_prefix (to_index_key [107%N]) (to_index_key [107%N; 0%N]) = false /\
+  to_index_key [107%N; 0%N] = [107%N; 0%N; 255%N; 0%N; 0%N].
+Proof. vm_compute. auto. Qed.
 
 (* a script: put b, merge counter c twice (2^64-1 then 2: wraps to 1), delete-range [a,b\0), commit, read *)
 Example C20_ex_script :
